@@ -70,7 +70,58 @@ def harnesses(tier):
     hs.append({"id": "n3/H1-absent-none", "params": {"status": ["H1", "absent", "none"], "strand": ["-", "+", "-"], "path": ["u", "b", "s"],
                                                       "tags": [0, 1, 3]}, "timeout": 300})
     hs.append({"id": "n0/empty", "params": {"status": [], "strand": [], "path": [], "tags": []}, "timeout": 60})
+    for gz in (0, 1):
+        hs.append({"id": "parsed/%s" % ("bgzf" if gz else "text"), "params": {"kind": "parsed", "gz": gz, "status": ["x", "x", "x"]}, "timeout": 300})
     return hs
+
+
+PARSED_LINES = [
+    "p0\t50\t0\t10\t-\t>s1<s2\t25\t2\t12\t9\t10\t60\ttp:A:S\tNM:i:-1\tcg:Z:5=1X4=\n",
+    "p1 trailing words\t50\t0\t10\t+\tchr1\t30\t0\t10\t10\t10\t0\ttp:A:P\tzd:Z:a b:c\n",
+    "p2\t50\t3\t13\t+\t<chr1:10-25\t15\t1\t11\t8\t10\t60\ttp:A:I\tcg:Z:4=2D4=\tdv:f:-.5e-3\n",
+]
+
+
+def build_parsed(params):
+    args = [("s0", "int"), ("s1", "int"), ("s2", "int")]
+    pre = ["0 <= s0 <= 2 and 0 <= s1 <= 2 and 0 <= s2 <= 2"]
+
+    def case(s0, s1, s2):
+        P = M["P"]
+        e = stubs.env()
+        st = [["H1", "none", "absent"][0 if x == 0 else 1 if x == 1 else 2] for x in (s0, s1, s2)]
+        names = ["p0", "p1", "p2"]
+        tsv = []
+        for nm, x in zip(names, st):
+            if x == "H1":
+                tsv.append("%s\tH1\t77\tchr9\n" % nm)
+            elif x == "none":
+                tsv.append("%s\tnone\tnone\tchr9\n" % nm)
+        e.files["h.tsv"] = stubs.MFile("text", tsv, None)
+        e.files["in.gaf"] = stubs.MFile("bgzf" if params["gz"] else "text", PARSED_LINES, None)
+        P.add_phase_info("in.gaf", "h.tsv", "o.gaf")
+        out = [str(l).rstrip("\n") for l in e.files["o.gaf"].lines]
+        if len(out) != 3:
+            return "%d output lines for 3 records" % len(out)
+        for i in range(3):
+            fi = PARSED_LINES[i].rstrip("\n").split("\t")
+            fo = out[i].split("\t")
+            want12 = [fi[0].split(" ")[0]] + fi[1:12]
+            if fo[:12] != want12:
+                return "record %d: mandatory columns %r, input %r" % (i, fo[:12], want12)
+            rest = [x for x in fo[12:] if not x.startswith(("ps:Z:", "ht:Z:"))]
+            if rest != fi[12:]:
+                return "record %d: optional fields %r, input had %r" % (i, rest, fi[12:])
+            ps = [x for x in fo[12:] if x.startswith("ps:Z:")]
+            ht = [x for x in fo[12:] if x.startswith("ht:Z:")]
+            if st[i] == "H1":
+                if ps != ["ps:Z:chr9-77"] or ht != ["ht:Z:H1"]:
+                    return "record %d: phase tags %r %r" % (i, ps, ht)
+            elif ps != ["ps:Z:none"] or ht != ["ht:Z:none"]:
+                return "record %d: phase tags %r %r for an unphased/absent read" % (i, ps, ht)
+        return None
+
+    return Harness(args, pre, case, fuel=50)
 
 
 def tsv_lines(params, ps_nums):
@@ -113,6 +164,8 @@ def pick2(x):
 
 
 def build(params):
+    if params.get("kind") == "parsed":
+        return build_parsed(params)
     n = len(params["status"])
     args = []
     pre = []
@@ -205,6 +258,38 @@ def build(params):
 
 def replay(params, model, wd):
     import gaftools.cli.phase as P
+
+    if params.get("kind") == "parsed":
+        import pysam
+
+        st = [["H1", "none", "absent"][x] for x in model["args"]]
+        gaf = os.path.join(wd, "in.gaf")
+        open(gaf, "w").write("".join(PARSED_LINES))
+        if params["gz"]:
+            pysam.tabix_compress(gaf, gaf + ".gz", force=True)
+            gaf += ".gz"
+        tp = os.path.join(wd, "h.tsv")
+        with open(tp, "w") as fh:
+            for nm, x in zip(["p0", "p1", "p2"], st):
+                if x == "H1":
+                    fh.write("%s\tH1\t77\tchr9\n" % nm)
+                elif x == "none":
+                    fh.write("%s\tnone\tnone\tchr9\n" % nm)
+        out = os.path.join(wd, "o.gaf")
+        try:
+            P.run(gaf, tp, out)
+        except BaseException as e:  # noqa
+            return {"reproduced": True, "key": "C20:parsed:exception", "what": repr(e)}
+        got = open(out).read().split("\n")
+        for i in range(3):
+            fi = PARSED_LINES[i].rstrip("\n").split("\t")
+            fo = got[i].split("\t") if i < len(got) else []
+            rest = [x for x in fo[12:] if not x.startswith(("ps:Z:", "ht:Z:"))]
+            if fo[:12] != [fi[0].split(" ")[0]] + fi[1:12] or rest != fi[12:]:
+                lost = [x for x in fi[12:] if x not in rest]
+                return {"reproduced": True, "key": "C20:parsed:%s" % ("lost-" + lost[0][:5] if lost else "columns"),
+                        "what": "record %r written as %r" % (PARSED_LINES[i], got[i] if i < len(got) else None)}
+        return {"reproduced": False, "detail": "parsed records re-emitted unchanged"}
 
     n = len(params["status"])
     a = model["args"]
